@@ -30,6 +30,13 @@ Theorem c12_lists : forall shape cmds frames,
   responses_model shape cmds frames <> TPanic.
 Proof. exact responses_total. Qed.
 
+(* the macro invocations (regenerated) cover arities 1..8 and element i uses field i: the
+   "no such tuple field" branch of the model is never taken for a tuple of a listed arity *)
+Theorem c12_tuple_impls_shape :
+  map (@length nat) tuple_impls = [1; 2; 3; 4; 5; 6; 7; 8]%nat /\
+  Forall (fun idxs => idxs = seq 0 (length idxs)) tuple_impls.
+Proof. split; [vm_compute; reflexivity | repeat constructor]. Qed.
+
 (* the hypothesis is exactly what the protocol parser guarantees for every field it emits ... *)
 Theorem c12_parser_emits_parser_keys : forall i n k v, parse_component i = ROk n (CField k v) -> parser_key k.
 Proof. exact parsed_field_has_parser_key. Qed.
@@ -64,6 +71,7 @@ Print Assumptions c12_response.
 Print Assumptions c12_consume.
 Print Assumptions c12_grouped_iter_total.
 Print Assumptions c12_lists.
+Print Assumptions c12_tuple_impls_shape.
 Print Assumptions c12_parser_emits_parser_keys.
 Print Assumptions c12_parser_keys_are_tags.
 Print Assumptions c12_duration_total.
